@@ -24,6 +24,7 @@ import (
 // Config of one simulated run. Everything the scheduler decides derives from it.
 type Config struct {
 	Strategy string   // first | random | rtb | pct | starve:<site prefix>
+	Auto     bool     // park at "auto:" sites too
 	Seed     int64    // seeds the strategy
 	Tape     []uint16 // when non-nil: replay. choice k = Tape[k] mod |runnable|, 0 after the end
 	MaxSteps int      // 0 = default
@@ -62,6 +63,7 @@ type Task struct {
 	parked bool
 	at     string
 	noPark int
+	quiet  int // >0: holds a mutex or runs inside a sync.Once (instrumented build): no auto parks
 	hold   int
 	drain  bool
 	prio   int
@@ -190,12 +192,41 @@ func Yield(site string) {
 		perturb()
 		return
 	}
+	auto := strings.HasPrefix(site, "auto:")
+	if auto && !s.cfg.Auto && len(site) > 6 {
+		return
+	}
 	t := s.lookup()
-	if t == nil || t.noPark > 0 {
+	if t == nil {
+		return
+	}
+	if auto {
+		// inserted by cmd/autoyield into the scratch copy the simulator is built from
+		switch site {
+		case "auto:+":
+			t.quiet++
+			return
+		case "auto:-":
+			if t.quiet > 0 {
+				t.quiet--
+			}
+			return
+		}
+		if t.quiet > 0 {
+			return
+		}
+	}
+	if t.noPark > 0 {
 		return
 	}
 	s.park(t, site, 0, false)
 }
+
+// autoSites is set by the test binary's init when it was built from an instrumented copy.
+var autoSites atomic.Bool
+
+func SetAutoSites(v bool) { autoSites.Store(v) }
+func AutoSites() bool     { return autoSites.Load() }
 
 // InNoPark reports whether the calling goroutine is a task inside a NoPark region.
 func InNoPark() bool {
